@@ -471,6 +471,7 @@ impl World {
                 _ => {
                     l.placeholders /= 2;
                     l.enc.clear();
+                    l.more_auths.clear();
                     l.placeholder_abs = l.placeholder_abs.map(|n| n.min(64));
                     l.extra_auth_after = 0;
                     l.extra_auth_before = 0;
@@ -493,6 +494,32 @@ impl World {
             built.cookies_before_auth,
             built.auth_genuine
         );
+        if built.n_auth >= 2 {
+            if let CookieTruth::Issued { keys: ck, .. } = &truth {
+                let (n, ok) = wire::authenticators(&built.bytes, ck.alg, &ck.c2s);
+                if ok < n {
+                    // decoder level: one failing authenticator among several => not reported as authentic
+                    let ks = self.servers[to].keyset();
+                    let bytes = built.bytes.clone();
+                    let r = simkit::exec::catch(|| match NtpPacket::deserialize(&bytes, ks.as_ref()) {
+                        Ok((p, c)) => {
+                            let v = p.verif_ef_view();
+                            (true, v.authenticated.len(), v.encrypted.len(), c.is_some())
+                        }
+                        Err(_) => (false, 0, 0, false),
+                    });
+                    match r {
+                        Ok((parsed_ok, a, e, ck)) => check!(
+                            "C25",
+                            "c25-failing-authenticator-among-several-reported-authentic",
+                            !parsed_ok || (a == 0 && e == 0 && !ck),
+                            "request with {n} authenticator fields of which {ok} verify decodes as authentic under the server's keys ({a} authenticated, {e} encrypted fields, cookie keys {ck})"
+                        ),
+                        Err(m) => simkit::violation("C23", "c23-panic-server-keys", format!("multi-authenticator request of {} bytes: {m}", bytes.len())),
+                    }
+                }
+            }
+        }
         self.sess[c].pending = Some(Pending { req: id, origin: built.origin, uid: built.uid.clone(), ident: built.ident });
         self.keep_req(c, id, &built.bytes);
         self.net.send(now, c as u32, srv_node(to), built.bytes.clone(), Meta::Request { sess: c, req: id });
@@ -539,6 +566,7 @@ impl World {
             cookies_before_auth: cookies,
             auth_genuine: ai < w.fields.len(),
             auth_key: if ai < w.fields.len() { Some(self.sess[c].keys.c2s.clone()) } else { None },
+            n_auth: w.fields.iter().filter(|f| f.type_id == T_AUTH).count(),
             nonce_len: 16,
             uid,
             origin: wire::origin_of_request(bytes),
@@ -699,9 +727,19 @@ impl World {
                     CookieTruth::Issued { keys, .. } => rec.built.auth_key.as_deref() == Some(&keys.c2s[..]) && rec.built.cookies_before_auth == 1,
                     _ => false,
                 };
-                let base_authentic = cookie_state == CookieState::Valid && rest_ok;
+                // RFC 8915 / the statement: with several authenticator fields the request is authentic only if
+                // EVERY one verifies (under the cookie's c2s key, over all bytes that precede it)
+                let (n_auth, n_auth_ok) = wire::authenticators(&rec.built.bytes, keys.alg, &keys.c2s);
+                let multi = n_auth >= 2;
+                if multi {
+                    probe(if n_auth_ok == n_auth { "c19-multi-auth-all-verify" } else if n_auth_ok == 0 { "c19-multi-auth-none-verify" } else { "c19-multi-auth-some-fail" });
+                }
+                let rest_ok = if multi { rec.built.cookies_before_auth == 1 && n_auth_ok == n_auth } else { rest_ok };
+                // several verifying authenticators: the server may still refuse (it wants a cookie in front of
+                // each), so only "never wrong" is required, not "answered"
+                let base_authentic = cookie_state == CookieState::Valid && rest_ok && !multi;
                 // a lingering key (see CookieState::Either) leaves the outcome open
-                let base_open = cookie_state == CookieState::Either && rest_ok;
+                let base_open = (cookie_state == CookieState::Either || (multi && cookie_state == CookieState::Valid)) && rest_ok;
                 let map = RegionMap::of(&rec.built.bytes);
                 let has_auth = map.auth.is_some();
                 // (must_fail, crisp): crisp = the authenticator is certainly still visible to the server
@@ -961,7 +999,7 @@ impl World {
                             check!(
                                 "C25",
                                 "c25-client-takes-unauthentic-datagram-as-time",
-                                authentic_datagram && genuine_for == pending_req,
+                                (authentic_datagram && genuine_for == pending_req) || matches!(d.meta, Meta::Forged { keyed: true, .. }),
                                 "hand client {c} accepts datagram {:?} (mutation {:?}) as the time answer to request {pending_req:?}",
                                 d.meta,
                                 d.mutation
@@ -1008,7 +1046,7 @@ impl World {
                                 check!(
                                     "C25",
                                     "c25-nts-source-measures-unauthentic-datagram",
-                                    authentic_datagram && genuine_for == self.sess[c].last_req,
+                                    (authentic_datagram && genuine_for == self.sess[c].last_req) || matches!(d.meta, Meta::Forged { keyed: true, .. }),
                                     "NTS source {c} took datagram {:?} (mutation {:?}) as a measurement",
                                     d.meta,
                                     d.mutation
@@ -1077,9 +1115,86 @@ impl World {
         }
     }
 
+    /// A time answer to a pending request carrying SEVERAL authenticator fields (valid / failing in any
+    /// order, fields in between), built by a peer that holds the session keys. RFC 8915: authentic only
+    /// if every authenticator verifies; otherwise the client must treat it as unauthenticated.
+    fn multi_auth_response(&mut self, now: u64) {
+        let c = choose("adv.sess", self.sess.len() as u64) as usize;
+        let (origin, uid) = match (&self.sess[c].pending, self.sess[c].last_req.and_then(|r| self.reqs.get(&r))) {
+            (Some(p), _) => (p.origin, p.uid.clone()),
+            (None, Some(r)) => (r.built.origin, r.built.uid.clone()),
+            _ => return,
+        };
+        let keys = self.sess[c].keys.clone();
+        let v5 = self.sess[c].v5;
+        let mut out = vec![0u8; 48];
+        out[0] = ((if v5 { 5 } else { 4 }) << 3) | 4;
+        out[1] = 2;
+        out[2] = 6;
+        if v5 {
+            out[15] = 1;
+        }
+        out[24..32].copy_from_slice(&origin);
+        out[32..40].copy_from_slice(&0xE000_0000_1234_0000u64.to_be_bytes());
+        out[40..48].copy_from_slice(&0xE000_0000_1235_0000u64.to_be_bytes());
+        wire::put_ef(&mut out, T_UID, &uid, 16, v5);
+        if v5 {
+            wire::put_ef(&mut out, wire::T_DRAFT, wire::DRAFT_ID, 16, v5);
+        }
+        let wrong = SimPick.bytes("adv.key", keys.s2c.len());
+        let n = 2 + choose("adv.ma_n", 3);
+        for i in 0..n {
+            if i > 0 {
+                for _ in 0..choose("adv.ma_between", 3) {
+                    match choose("adv.ma_kind", 3) {
+                        0 => wire::put_ef(&mut out, T_UID, &uid, 16, v5),
+                        1 => wire::put_ef(&mut out, 0x0900, &SimPick.bytes("adv.body", 4 * choose("adv.ma_len", 8) as usize), 16, v5),
+                        _ => wire::put_ef(&mut out, T_COOKIE, &SimPick.bytes("adv.body", 104), 16, v5),
+                    }
+                }
+            }
+            let mut pt = vec![];
+            if choose("adv.ma_enc", 2) == 1 {
+                wire::put_ef(&mut pt, T_COOKIE, &SimPick.bytes("adv.body", 104), 0, v5);
+            }
+            let f = req::AuthFault::random(&mut SimPick);
+            if !req::emit_auth(&mut SimPick, &mut out, keys.alg, &keys.s2c, &wrong, f, 16, &pt, 0) {
+                return;
+            }
+        }
+        let (na, ok) = wire::authenticators(&out, keys.alg, &keys.s2c);
+        let all_ok = na == ok;
+        probe(if all_ok { "c25-multi-auth-response-all-verify" } else { "c25-multi-auth-response-some-fail" });
+        fault("adv-multi-auth-response");
+        // decoder level, client key context
+        let cipher = fk::cipher_from(keys.alg, &keys.s2c).expect("cipher");
+        let bytes = out.clone();
+        let r = simkit::exec::catch(|| match NtpPacket::deserialize(&bytes, cipher.as_ref()) {
+            Ok((p, _)) => {
+                let v = p.verif_ef_view();
+                (true, v.authenticated.len() + v.encrypted.len())
+            }
+            Err(_) => (false, 0),
+        });
+        match r {
+            Ok((parsed_ok, n_fields)) => {
+                if !all_ok {
+                    check!(
+                        "C25",
+                        "c25-failing-authenticator-among-several-reported-authentic",
+                        !parsed_ok || n_fields == 0,
+                        "response with {na} authenticator fields of which {ok} verify decodes as authentic under the session key ({n_fields} authenticated/encrypted fields)"
+                    );
+                }
+            }
+            Err(m) => simkit::violation("C23", "c23-panic-session-keys", format!("multi-authenticator response of {} bytes: {m}", bytes.len())),
+        }
+        self.net.send(now, ADV_NODE, c as u32, out, Meta::Forged { sess: Some(c), keyed: all_ok });
+    }
+
     fn adversary_tick(&mut self, now: u64) {
         let ns = self.servers.len() as u64;
-        match choose("adv.action", 6) {
+        match choose("adv.action", 8) {
             0 => {
                 // hostile layout to a server, from nowhere or spoofing a client
                 let si = choose("adv.server", ns) as usize;
@@ -1148,6 +1263,7 @@ impl World {
                     }
                 }
             }
+            6 | 7 => self.multi_auth_response(now),
             _ => {
                 // forged time answer for a pending request: copies everything an on-path attacker sees, foreign key
                 let c = choose("adv.sess", self.sess.len() as u64) as usize;
